@@ -99,8 +99,9 @@ func Request(r *http.Request) p.DpFactory {
 		return Config.Parsers.Query(r)
 	default:
 		// Content-Type follows this format: Content-Type: <media-type> [; parameter=value]
+		// media types are case-insensitive and may be surrounded by white space (RFC 9110 8.3.1)
 		typ, _, _ := strings.Cut(r.Header.Get("Content-Type"), ";")
-		switch typ {
+		switch strings.ToLower(strings.TrimSpace(typ)) {
 		case "application/json":
 			return Config.Parsers.JSON(r)
 		case "application/x-www-form-urlencoded":
